@@ -57,6 +57,11 @@ class LockHooks(Hooks):
         if n == "TEvent.set":
             self.under_lock(st, "Event.set")
             t = st.get(fn.info)["ticket"]
+            if self.chk is not None and "broken_of" in st.ghost:
+                # acquire re-reads _is_broken WITHOUT the inner lock after its wait(): what such a reader can see must satisfy the
+                # invariant at every single write, not only at the end of the block - an event other than the head's is set only once the flag says broken
+                self.chk.prove("C19.inv.lockfree_reader_view", st.pc, z3.Or(st.ghost["broken_of"](st), t == st.ghost["served"]),
+                               desc="at every Event.set: the event is the head's, or the lock is ALREADY marked broken (flag written before any waiter is woken), so a waiter that wakes and reads the flag without the lock cannot take ownership out of turn")
             st.ghost["setf"] = z3.Store(st.ghost["setf"], t, True)
             st.emit("set", ticket=t)
             return [("val", None, st)]
@@ -136,6 +141,7 @@ def setup(chk, stored="symexc"):
     # the exception that broke the lock: any exception object, including one constructed without arguments
     exc_obj = eng.new_symexc(st, "stored") if stored == "symexc" else st.alloc("exc:RuntimeError", {"args": ()})
     st.setfield(lock, "_exception", mk_opt(z3.Not(broken.t), exc_obj))
+    st.ghost["lock_ref"] = lock
     st.ghost["broken_of"] = lambda s: zbool(s.get(lock)["_is_broken"]) if not isinstance(s.get(lock)["_is_broken"], bool) else z3.BoolVal(s.get(lock)["_is_broken"])
     st.assume(inv(st))
     return eng, st, lock
@@ -156,9 +162,12 @@ def foreach_set_all(chk):
             res = eng.exec_block(node.body, s3)
             ok = len(res) == 1 and res[0][0] == "fall" and [e.kind for e in res[0][2].trace[n0:]] == ["set"] and z3.eq(res[0][2].trace[n0].ticket, j)
             chk.prove("C19.exit.sets_every_waiter.body", st.pc, ok, desc="the loop over the waiters sets each waiter's own event and does nothing else")
+        lock_ = g.get("lock_ref")
+        chk.prove("C19.inv.lockfree_reader_view.wake_all", st.pc, g["broken_of"](st),
+                  desc="the loop that wakes every waiter starts only after the broken flag was written (a woken waiter reads the flag without the lock)")
         st.assume(z3.ForAll([i], z3.Select(new, i) == z3.Or(z3.Select(g["setf"], i), z3.And(i >= g["served"], i < g["issued"]))))
         g["setf"] = new
-        st.emit("set_all")
+        st.emit("set_all", exc_at=st.get(lock_)["_exception"] if lock_ is not None else None)
         return [("fall", None, st)]
     return handler
 
@@ -260,7 +269,9 @@ def rest_of_lock(chk, eng, st, lock, P):
             g = s.ghost
             b1 = g["broken_of"](s)
             if with_exc:
-                goal = z3.And(z3.BoolVal(k == "val" and v is None), b1, inv(s), g["served"] == g0["served"] + 1, z3.BoolVal(s.get(lock)["_exception"] == exc))
+                sa = [e for e in s.trace if e.kind == "set_all"]
+                goal = z3.And(z3.BoolVal(k == "val" and v is None), b1, inv(s), g["served"] == g0["served"] + 1, z3.BoolVal(s.get(lock)["_exception"] == exc),
+                              z3.BoolVal(len(sa) == 1 and sa[0].exc_at == exc))  # the exception a woken waiter will report is stored before the wake-up
                 chk.prove("C19.exit.breaks", s.pc, goal,
                           desc="leaving the critical section with ANY exception: __exit__ returns None (the holder sees its own exception), the lock is broken, every queued waiter's event is set, the exception is stored; invariant preserved",
                           sample="__exit__ with an exception of arbitrary class")
@@ -279,6 +290,9 @@ def rest_of_lock(chk, eng, st, lock, P):
                   desc="broken is cleared only by reset, and reset refuses while anyone is queued (so a broken lock stays broken for every current waiter)")
     # ------------------------------------------------------------------ counter
     counter_sequence(chk)
+    # the counter's only caller must USE the value increment() returned: a separate read afterwards is a second, unordered acquisition
+    from . import context_contracts
+    context_contracts.counter_use(chk, "C19")
 
 
 class CounterHooks(Hooks):
